@@ -30,7 +30,12 @@ def _case(draw):
         spec['n'] = 0                                       # an empty sample is a sample
         spec['specials'] = []
     D = len(spec['widths'])
-    container = draw(st.sampled_from(['sample', 'sample', 'sample', 'array']))
+    container = draw(st.sampled_from(['sample', 'sample', 'sample', 'array', 'array', 'array_signed']))
+    if container == 'array_signed' and spec['datatype'] == 'I':
+        # a signed integer array of few distinct small readings, every other event negative
+        spec['col_kind'] = ['small'] * len(spec['widths'])
+        spec['n'] = max(spec['n'], 12)
+        spec['specials'] = []
     default_sc = draw(st.integers(0, 5)) == 0
     if default_sc:
         sc = list(range(D))
@@ -110,13 +115,16 @@ def check(case, obs):
     D = len(spec['widths'])
     d = build(spec) if not case.get('derived') else derived_from_used_parent(spec, case['derived'][1], case['derived'][0])
     names = list(d.channels)
-    is_array = case['container'] == 'array'
+    is_array = case['container'] in ('array', 'array_signed')
     if case['to_rfi_first'] and not is_array:
         d = tr.to_rfi(d)
     data = d
     if is_array:
         data = np.asarray(d)
         data = data.astype(data.dtype.newbyteorder('=')).copy()
+        if case['container'] == 'array_signed' and data.dtype.kind in 'ui':
+            data = data.astype(np.int64)
+            data[1::2] = -data[1::2]
     sc, req = case['sc'], case['req']
     k = len(sc)
     from pbt.props.c03 import _spell
